@@ -353,6 +353,9 @@ def run_storage(case):
     obs["io_calls_in_dry_run"] = K
     for _k, op, _p in events:
         obs["call_kinds"][op] = obs["call_kinds"].get(op, 0) + 1
+        if os.sep + "tmp" + os.sep in str(_p) and case["kind"] == "sharded":
+            # I/O on the writer's spill / buffer files (whatever they are called)
+            obs["io_calls_on_buffer_files"] = obs.get("io_calls_on_buffer_files", 0) + 1
     ref_audit = sc0.audit()
     ref_listing = _listing(sc0.d)
     expect_refusal = case["op"] in ("store_chunk_refused", "fetch_chunk_missing")
@@ -1231,5 +1234,5 @@ def gates(obs, tier):
         "torn_write_states_audited": obs.get("torn_write_states", 0) > 300,
         "kernel_file_size_limit_faults": obs.get("size_limit_raised", 0) > 50
         and obs.get("size_limit_returned", 0) > 0,
-        "on_disk_buffer_files_intercepted": ck.get("unlink", 0) > 0,
+        "on_disk_buffer_files_intercepted": obs.get("io_calls_on_buffer_files", 0) > 0,
     }
